@@ -775,6 +775,46 @@ func TestVfProxy(t *testing.T) {
 			pr.ncase++
 		}
 	}
+	// histories: several recipes of one configuration in a row on the SAME proxy objects, nothing reset in between -
+	// what an earlier message left behind (learnt routes, cached objects, transport table, rotation) is in play
+	nseq := vfEnvInt("VERIF_SEQS", 40)
+	if nseq > 0 && len(recs) > 0 {
+		groups := map[string][]int{}
+		var keys []string
+		parsed := make([]*vfRecipe, len(recs))
+		for i, raw := range recs {
+			var rc vfRecipe
+			if err := json.Unmarshal([]byte(raw), &rc); err != nil {
+				continue
+			}
+			parsed[i] = &rc
+			kb, _ := json.Marshal(pr.benchCfg(&rc))
+			if _, ok := groups[string(kb)]; !ok {
+				keys = append(keys, string(kb))
+			}
+			groups[string(kb)] = append(groups[string(kb)], i)
+		}
+		pr.g.decor = vfEnvInt("VERIF_DECOR", 1)
+		for s := 0; s < nseq; s++ {
+			g := groups[keys[pr.g.rnd.Intn(len(keys))]]
+			id := fmt.Sprintf("seq%d", s)
+			first := parsed[g[0]]
+			b := vfGetBench(t, pr.benchCfg(first))
+			pr.emitReset(id, b)
+			n := 4 + pr.g.rnd.Intn(8)
+			for j := 0; j < n; j++ {
+				rc := parsed[g[pr.g.rnd.Intn(len(g))]]
+				pr.learnSteps(id, b, rc)
+				cls := fmt.Sprintf("history step=%d route=%s to=%s ruri=%s learn=%s order=%s rvia=%s", j, strings.Join(rc.Route, "+"), rc.Rc.To, rc.Rc.Ruri, rc.Rc.Learn, rc.Rc.Order, rc.Rc.Rvia)
+				if rc.Rc.Kind == "req" {
+					pr.step(id, cls, b, 0, 0, pr.g.ip("10.0.5.5"), 40000, pr.g.request(rc))
+				} else {
+					pr.step(id, cls, b, 0, 0, pr.g.ip("10.0.4.1"), 5060, pr.g.response(rc))
+				}
+			}
+			pr.ncase++
+		}
+	}
 	fmt.Printf("VF cases=%d events=%d\n", pr.ncase, tr.n)
 }
 
